@@ -206,6 +206,37 @@ def getters(ctx):
             else:
                 wantp = ('pre', (('obj', 1), ('f', 'loco_vec'), ('idx', ('bound', 0)), ('f', 'loco_type'), ('as', vname), ('f', '#0'), ('f', spec[0]), ('f', 'state'), ('f', spec[1])))
                 ctx.check(arm == wantp, 'C11-4.getters', key, 'arm is loco.%s.state.%s' % spec, 'arm is %s' % show(arm, ca.names)[:300], ctx.where(cb))
+    # reported losses: the consist's loss total is the Σ over its locomotives of the losses of exactly the components the powertrain
+    # type has, each once (the "losses reported for each powertrain component" of the ledger)
+    parts = {'ConventionalLoco': ['fc', 'gen', 'edrv'], 'HybridLoco': ['fc', 'gen', 'res', 'edrv'], 'BatteryElectricLoco': ['res', 'edrv'], 'DummyLoco': []}
+    fid = '<Consist as LocoTrait>::get_energy_loss'
+    cb = prog.by_id.get(fid)
+    ca = analysis_or_fail(ctx, 'C11-4.getters', cb) if cb is not None else None
+    if cb is None:
+        ctx.unproved('C11-4.getters', fid, 'anchor not found')
+    elif ca is not None:
+        t = ca.ret()
+        if t[0] != 'Sum' or t[1][0] != 'seq' or [s_ for s_ in t[1][1]] != [('slice', (('obj', 1), ('f', 'loco_vec')))]:
+            ctx.bad('C11-4.getters', fid, 'not a Σ over self.loco_vec: %s' % show(t, ca.names)[:200], ctx.where(cb))
+        else:
+            item = t[1][2]
+            def addends(x, out):
+                if x[0] == 'add':
+                    for y in x[1:]:
+                        addends(y, out)
+                elif x != ZERO:
+                    out.append(x)
+            for vname, comps in parts.items():
+                if vname not in vidx:
+                    continue
+                arm = select(item, lambda d: d[0] == 'discr', vidx[vname])
+                got = []
+                addends(arm, got)
+                exp = [('pre', (('obj', 1), ('f', 'loco_vec'), ('idx', ('bound', 0)), ('f', 'loco_type'), ('as', vname), ('f', '#0'), ('f', c_), ('f', 'state'), ('f', 'energy_loss')))
+                       for c_ in comps]
+                ctx.check(sorted(map(repr, got)) == sorted(map(repr, exp)), 'C11-4.getters', '%s|%s' % (fid, vname),
+                          'reported loss = Σ energy_loss of %s, each once' % (', '.join(comps) or 'nothing'),
+                          'reported loss sums %s' % [show(x, ca.names)[-50:] for x in got], ctx.where(cb))
     # vector getters: Σ over elements of the element getter
     for g in ('get_energy_fuel', 'get_net_energy_res', 'get_kilometers', 'get_megagram_kilometers'):
         vb = prog.by_id.get('SpeedLimitTrainSimVec::' + g)
